@@ -2371,21 +2371,40 @@ func ruleZeroLengthHorz(rule string) func(*Ctx) {
 			fatalf("%s: path budget exceeded", rule)
 		}
 		rets, dyn := 0, 0
+		selfScan := ""
 		for _, p := range outs {
 			if p.end != "return" || len(p.ret) == 0 {
 				continue
 			}
 			rets++
 			// decided by the scan: the direction is not a constant, or the path tested an edge against vertexMax
-			scan := p.ret[len(p.ret)-1].abs.k != aBool
+			scan := false
+			for _, r := range p.ret {
+				if r.abs.k != aBool && r.abs.k != aInt && !strings.HasSuffix(r.expr, ".curX") && !strings.HasSuffix(r.expr, ".X") {
+					scan = true // the direction (whichever position it is returned in) is not a constant
+				}
+			}
 			for _, cd := range p.conds {
 				if mentions(cd.expr, "vertexMax") {
 					scan = true
+					if strings.Contains(cd.expr, "(horz.vertexTop == vertexMax)") || strings.Contains(cd.expr, "(horz.vertexTop != vertexMax)") {
+						selfScan = "the search for the maxima pair tests the horizontal ITSELF (its own top is vertexMax): it always answers 'found'"
+					}
+				}
+			}
+			for _, cl := range p.calls {
+				if len(cl.args) == 2 && cl.args[1].expr == "vertexMax" && cl.args[0].expr == "horz" && ex.c.freshFunc(cl.instr.Common().StaticCallee()) {
+					selfScan = "the search for the maxima pair (" + cl.callee + ") starts AT the horizontal, whose own top is vertexMax, instead of at its right neighbour: it always answers 'found'"
 				}
 			}
 			if scan {
 				dyn++
 			}
+		}
+		if selfScan != "" {
+			c.fail(rule, rule+":resetHorzDirection:zero-length", f.Pos(), "resetHorzDirection", selfScan,
+				"zero-length horizontals arise when a horizontal runs out and straight back over itself; heading away from the maxima pair, the edge is pushed past its local maximum and the sweep does not terminate")
+			return
 		}
 		c.check(dyn > 0, rule, rule+":resetHorzDirection:zero-length", f.Pos(), "resetHorzDirection",
 			"for a horizontal with bot.X == top.X the heading is taken from the position of the maxima pair in the AEL",
